@@ -679,9 +679,11 @@ func Input(l *InputSharedVars, g *GlobalVarsMain, hPath *HFilePath, driConfig *C
 						}
 					}
 
-					for i := 1; i <= NRTIL; i++ {
-						if g.EINTE[i+1] == g.EINTE[i] {
-							g.EINTE[i+1] = g.EINTE[i+1] + 1
+					// two events on one day are carried out on consecutive days; the shift must keep the dates ascending
+					// (a pair followed by an event on the next day used to end up out of order and blocked all later events)
+					for i := 1; i < NRTIL; i++ {
+						if g.EINTE[i+1] <= g.EINTE[i] {
+							g.EINTE[i+1] = g.EINTE[i] + 1
 						}
 					}
 				}
@@ -711,10 +713,10 @@ func Input(l *InputSharedVars, g *GlobalVarsMain, hPath *HFilePath, driConfig *C
 						}
 
 					}
-					for i := 1; i <= NDu; i++ {
-						index := i - 1
-						if g.ZTDG[index+1] == g.ZTDG[index] {
-							g.ZTDG[index+1] = g.ZTDG[index+1] + 1
+					// as for tillage: keep the dates ascending when same-day events are moved to the next day
+					for index := 0; index+1 < NDu; index++ {
+						if g.ZTDG[index+1] <= g.ZTDG[index] {
+							g.ZTDG[index+1] = g.ZTDG[index] + 1
 						}
 					}
 					for i := 1; i < NDu; i++ {
